@@ -27,6 +27,7 @@ type mChange struct {
 
 type c17Case struct {
 	Threshold int
+	ExtMagic  uint16
 	Sets      [][]mChange
 	Reopens   []bool // reopen the manifest file after set i
 	FlipSet   int
@@ -37,6 +38,7 @@ type c17Case struct {
 func genC17(t *rapid.T) c17Case {
 	var c c17Case
 	c.Threshold = rapid.IntRange(0, 12).Draw(t, "threshold")
+	c.ExtMagic = rapid.SampledFrom([]uint16{0, 0, 1, 7, 65535}).Draw(t, "extmagic")
 	n := rapid.IntRange(1, 25).Draw(t, "nsets")
 	for i := 0; i < n; i++ {
 		m := rapid.IntRange(1, 5).Draw(t, "nchanges")
@@ -125,7 +127,7 @@ func runC17(c c17Case, rec *evid.Rec) (core.Result, error) {
 	var res core.Result
 	dir := core.Scratch("c17")
 	defer os.RemoveAll(dir)
-	opt := badger.DefaultOptions(dir).WithLogger(nil)
+	opt := badger.DefaultOptions(dir).WithLogger(nil).WithExternalMagic(c.ExtMagic)
 	mpath := filepath.Join(dir, "MANIFEST")
 	mf, m0, err := badger.VerifManifestOpen(dir, c.Threshold, opt)
 	if err != nil {
